@@ -184,32 +184,43 @@ def run(ctx):
     rej = SM.bumps_of("KeysRejected")
     charge_fns = {s["fn"].name for s in M.inc_sites if not (s["amount"][0] == "binop" and s["amount"][1] == "Sub")}
     admit = {n for n, f in F.fns.items() if f.rec.get("ret", "").endswith("command::CommandStatus") and any(t.get("rpath") in charge_fns for b, t in f.calls())}
-    handlers = [f for n, f in F.fns.items() if any(t.get("rpath") in admit for b, t in f.calls()) and n not in admit]
+    # put handlers = the outermost functions on whose paths (helpers inlined) an admission decision is taken
+    hc = {}
+    for n, f in F.fns.items():
+        if f.kind == "Closure" or n in admit or not any(t["res"] == "item" and t.get("rlocal") for b, t in f.calls()):
+            continue
+        if not (f.rec.get("ret", "").endswith("command::CommandStatus")):
+            continue
+        ps = ipaths(F, f, stop=lambda x: x in admit or x in rej, depth=2)
+        if any(p.calls(admit) for p in ps):
+            hc[n] = (f, ps)
+    outer = [n for n in hc if not any(t.get("rpath") == n for m in hc if m != n for b, t in hc[m][0].calls())]
+    handlers = [hc[n][0] for n in sorted(outer)]
     ctx.floor("R16.4", "put handlers calling admission", len(handlers), 1)
+    handler_family = set(hc)
     for f in handlers:
         ctx.touch(f)
         bad = []
-        for p in enum_paths(f):
-            atoms = path_atoms(f, p)
-            calls = path_calls(f, p)
-            adm = [(b, t) for b, t in calls if t.get("rpath") in admit]
-            nr = len([1 for b, t in calls if t.get("rpath") in rej])
+        for p in hc[f.name][1]:
+            adm = p.calls(admit)
+            nr = len(p.calls(rej))
             if not adm:
                 if nr:
                     bad.append(("KeysRejected bumped without an admission decision", p))
                 continue
-            ar = f.origin_call(adm[0][0], adm[0][1])
-            v = [a for a in atoms if a[0] == "enum" and strip_site(a[1]) == strip_site(ar)]
-            if not v:
+            v = p.variant_of(adm[0].res)
+            if v is None:
                 bad.append(("admission status not inspected", p))
-            elif v[0][2] == ("Accepted",):
+            elif v == ("Accepted",):
                 if nr != 0:
                     bad.append(("accepted put counted as rejected", p))
+            elif "Accepted" in v and not any(x.startswith("!") for x in v):
+                bad.append(("admission status not decided on a path", p))
             elif nr != 1:
                 bad.append(("refused put counted %d times" % nr, p))
         ctx.check(not bad, "R16.4", "%s|rejected-iff-refused" % f.name,
-                  "KeysRejected is bumped exactly once when admission refused the put and never when it accepted", f.where(), "; ".join("%s via %s" % x for x in bad[:3]))
-    others = sorted({g.name for n, g in F.fns.items() for b, t in g.calls() if t.get("rpath") in rej} - {f.name for f in handlers})
+                  "KeysRejected is bumped exactly once when admission refused the put and never when it accepted", f.where(), "; ".join("%s %s" % (w_, q.show()) for w_, q in bad[:3]))
+    others = sorted({outer_fn(F, g).name for n, g in F.fns.items() for b, t in g.calls() if t.get("rpath") in rej} - handler_family)
     ctx.check(not others, "R16.4", "rejected-only-in-handlers", "KeysRejected is bumped only by the put handlers", detail=str(others))
 
     # ---- R16.7 admission refusals are produced only where they are counted ---------------------------------
